@@ -89,7 +89,7 @@ class NewtonGirardAdditiveKernel(Kernel):
         # e_n is R x n x n, and the array is properly 0 indexed.
         shape = [d_ for d_ in kern_values.shape]
         shape[kernel_dim] = self.max_degree + 1
-        e_n = torch.empty(*shape, device=kern_values.device)
+        e_n = torch.empty(*shape, device=kern_values.device, dtype=kern_values.dtype)
         if kernel_dim == -3:
             e_n[..., 0, :, :] = 1.0
         else:
